@@ -3185,6 +3185,11 @@ func (dsc *dataStoreCommand) sort(sourceKeyName, byPattern, destKeyName string, 
 	}
 
 	dontSort := false
+	if list == nil && destKeyName != "" && byPattern != "" && !strings.Contains(byPattern, "*") {
+		// a set has no order of its own: when the result is stored, redis sorts it as text
+		byPattern = ""
+		alpha = true
+	}
 	if byPattern == "" {
 		// without BY the elements themselves are the sort keys
 		for idx, val := range vals {
